@@ -38,6 +38,8 @@ Reading adopted (demands less)
   * error messages / spans are not compared; a rejected string is a violation only if it is in the
     documented syntax of step 1's grammar (series inside parentheses, !, & are not).
   * termination: one enumerated or random policy (parse + all its matches) within a 20 s watchdog.
+  * "without panicking" includes not killing the process: patterns nested 5000-50000 deep (15-50 KB of text)
+    are parsed, matched and dropped in a child process on a 2 MiB thread stack.
 """
 import json
 import os
@@ -84,6 +86,11 @@ def replay_one(c, binp):
     if text is not None:
         rc, so = c.sh([binp, "one", text])
         print(so)
+    if rp.get("kind") == "deep":
+        rc, so = c.sh([binp, "deep", rp["shape"], str(rp["depth"])])
+        print("rc=%s %s" % (rc, so[-300:]))
+        if rc < 0 or rc >= 128:
+            c.violation("Crash:nesting:%s" % rp["shape"], "process killed (rc=%s)" % rc, rp)
     c.cov["replayed"] = c.cov["evaluations"] = 1
     c.cov["distinct_nontrivial"] = 1
     c.sample(rp)
@@ -150,6 +157,17 @@ def run(c):
     c.cov["distinct_nontrivial"] = res["cases"] - 1 - 4   # the empty pattern and the bare predicates
     pv_report(c, res["pv"], "replay")
     c.sample({"replayed_case": rows[len(rows) // 2]})
+
+    # ---- 2b. nesting probes in a child process (death by signal is the observation) ---------------------
+    for kind, depth in (("paren", 10000), ("or", 5000), ("postfix", 50000)):
+        rc, so = c.sh([binp, "deep", kind, str(depth)], timeout=600)
+        c.cov["evaluations"] += 1
+        if rc < 0 or rc >= 128:
+            c.violation("Crash:nesting:%s" % kind,
+                        "parsing/matching/dropping a hop pattern with %d nested %s operators on a thread with the default 2 MiB stack kills the process (rc=%s: unbounded recursion, stack overflow)" % (depth, kind, rc),
+                        {"kind": "deep", "shape": kind, "depth": depth, "rc": rc})
+        elif rc != 0:
+            c.drift("nesting probe %s/%d ended with rc=%s: %s" % (kind, depth, rc, so[-200:]))
 
     # ---- 3. record + trace validation ----------------------------------------------------------------
     tr = os.path.join(c.work, "trace.ndjson")
